@@ -511,4 +511,51 @@ func TestVerifC15(t *testing.T) {
 			}
 		}
 	}
+	// several decoders at once (one goroutine per UDP source in the server): encode -> decode round trips of packets with
+	// different headers in four goroutines; a decoder must not depend on what another one is doing
+	{
+		nit := 4000
+		if os.Getenv("VERIF_TIER") != "quick" {
+			nit = 60000
+		}
+		ctors := []c15ctor{
+			{Kind: 16, Dims: []int{8}, N: 16, Off: 0, Seq: 1, Src: 11, Ver: 0x10, Ops: []string{"settime"}, TS: 5, Rate: 1e8},
+			{Kind: 32, Dims: []int{6}, N: 12, Off: 8, Seq: 2, Src: 22, Ver: 0x10, Ops: []string{"settime"}, TS: 1 << 40, Rate: 1.25e8},
+			{Kind: 16, Dims: []int{2, 3}, N: 6, Off: 1 << 20, Seq: 3, Src: 33, Ver: 0x10, Ops: []string{}, TS: 0, Rate: 0},
+			{Kind: 64, Dims: []int{1}, N: 5, Off: 3, Seq: 0xfffffffe, Src: 44, Ver: 0x10, Ops: []string{"settime"}, TS: 1 << 45, Rate: 1e9},
+		}
+		var wg sync.WaitGroup
+		results := make([]c15res, len(ctors))
+		counts := make([]int, len(ctors))
+		for g := range ctors {
+			wg.Add(1)
+			go func(g int) {
+				defer wg.Done()
+				r := rand.New(rand.NewSource(int64(1000 + g)))
+				for k := 0; k < nit; k++ {
+					res := c15roundtrip(ctors[g], r)
+					results[g] = res
+					counts[g] = k + 1
+					bad := len(res["panics"].([]string)) > 0 || res["decode_err"].(string) != ""
+					for _, ok := range res["rt"].(map[string]bool) {
+						if !ok {
+							bad = true
+						}
+					}
+					if bad {
+						return // the first round trip that failed is the one reported
+					}
+				}
+			}(g)
+		}
+		wg.Wait()
+		for g := range ctors {
+			id++
+			r := results[g]
+			r["ev"], r["scen"], r["kind"], r["ctor"], r["iterations"] = "Roundtrip", id, "ctor-concurrent", ctors[g], counts[g]
+			encMu.Lock()
+			enc.Encode(r)
+			encMu.Unlock()
+		}
+	}
 }
